@@ -8,4 +8,5 @@ MCCovSmall == {<<0,1>>, <<1,4>>, <<3,4>>, <<1,1>>}
 MCOutSmall == {<<0,1>>, <<1,5>>, <<9,10>>}
 MCPatSmall == {"none", "all"}
 MCBaseSmall == {<<1,5>>}
+MCNoSample == <<0, 0>>
 ====
